@@ -12,8 +12,10 @@ import time
 from mc import core
 
 HERE = os.path.dirname(os.path.dirname(os.path.abspath(__file__)))
-EVIDENCE_DIR = os.path.join(HERE, "evidence")
-REPLAY_DIR = os.path.join(HERE, "replays")
+# the two directories can be redirected (used when a check is pointed at a patched scratch copy of the repository, so that
+# the evidence of the real tree is not overwritten)
+EVIDENCE_DIR = os.environ.get("VERIF_EVIDENCE_DIR") or os.path.join(HERE, "evidence")
+REPLAY_DIR = os.environ.get("VERIF_REPLAY_DIR") or os.path.join(HERE, "replays")
 FINDINGS = os.path.join(HERE, "known_findings.json")
 
 
